@@ -15,9 +15,10 @@ import inspect
 import warnings
 from typing import Dict, List, Optional, Set, Tuple
 
-from ..flow import param_value_used
+from ..flow import defuse, names_in, param_value_used
 from ..index import AnalysisError, FuncInfo, Index, call_name, dotted, walk_no_nested
 from ..patchspecs import PatchSpec, collect_specs
+from ..guards import src
 from ..report import Results
 from ..sigs import Sig, library_object, sig_from_ast, sig_from_inspect, unbound_forms
 import re
@@ -139,6 +140,7 @@ def run(res: Results, idx: Index, tier: str) -> None:
     wr = Sig([Param("a", "poskw", False), Param("bb", "kwonly", True)])
     forms = {(p, f) for p, f, _ in unbound_forms(o, wr)}
     res.control("R-C19a", "positional, renamed-keyword and keyword-only forms are reported on a synthetic pair", {("b", "positional#1"), ("b", "keyword"), ("c", "keyword-only")} <= forms, str(sorted(forms)))
+    rule_e(res, idx)
 
 
 def _only_deleted(w: ast.AST, nm: str) -> bool:
@@ -289,3 +291,89 @@ def rule_d(res: Results, idx: Index, specs) -> None:
                         res.violation("R-C19d", site, key, f"positional argument #{pos} of {sp.fq} is `{lib_pos[pos].name}` in the library but the substitute treats it as `{kwname}`", cls_name)
                         continue
                 res.ok("R-C19d", site, key, f"`{seq}[{k}]` taken when len({seq}) > {k}" + (f", keyword fallback `{kwname}`" if kwname else ""), cls_name)
+
+
+# ---------------------------------------------------------------------------------------------- R-C19e
+def rule_e(res: Results, idx: Index) -> None:
+    """Transformation rules (batching / jvp / transpose) that bind the plugin primitive again must hand on every
+    parameter the first bind carried.  A re-bind through a *filtered* mapping (`{k: params[k] for k in WHITELIST}`) or
+    with hand-picked keywords drops the others: under jax.vmap the argument is accepted and silently replaced by the
+    default.  For rule factories shared by several primitives the parameters are the union of the keyword parameters of
+    the plugins' abstract_eval (bind keys are a subset of those: R-C19c)."""
+    res.rule("R-C19e", "re-binding transformation rules forward every parameter of the primitive", floor=3)
+    n = 0
+    for m in idx.product_modules():
+        if "/plugins/" not in m.rel:
+            continue
+        for fi in m.funcs.values():
+            a = fi.node.args  # type: ignore[attr-defined]
+            if a.kwarg is None:
+                continue
+            kwname = a.kwarg.arg
+            explicit_params = {x.arg for x in a.kwonlyargs} | {x.arg for x in a.args}
+            binds = [c for c in walk_no_nested(fi.node) if isinstance(c, ast.Call) and isinstance(c.func, ast.Attribute) and c.func.attr == "bind" and any(k.arg is None for k in c.keywords)]
+            if not binds or not any(s_ in fi.qualname.lower() or s_ in (fi.parent_func.qualname.lower() if fi.parent_func else "") for s_ in ("batch", "jvp", "transpose", "rule", "vmap")):
+                continue
+            du = defuse(fi.node)
+            for b in binds:
+                splat = next(k.value for k in b.keywords if k.arg is None)
+                n += 1
+                key = f"{m.rel}::{fi.qualname}::rebind::{src(splat, 30)}"
+                site = f"{m.rel}:{b.lineno}"
+                if isinstance(splat, ast.Name) and splat.id == kwname:
+                    res.ok("R-C19e", site, key, f"`**{kwname}` is forwarded as a whole", fi.qualname)
+                    continue
+                # a filtered mapping: constant key universe?
+                allowed: Optional[Set[str]] = None
+                vals = [splat] + ([v for v in du.values(splat.id)] if isinstance(splat, ast.Name) else [])
+                for v in vals:
+                    if isinstance(v, ast.DictComp) and len(v.generators) == 1:
+                        it = v.generators[0].iter
+                        consts = None
+                        if isinstance(it, (ast.Tuple, ast.List, ast.Set)) and all(isinstance(e, ast.Constant) for e in it.elts):
+                            consts = {e.value for e in it.elts}
+                        elif isinstance(it, ast.Name):
+                            cv = fi.module.consts.get(it.id)
+                            if isinstance(cv, (tuple, list, set, frozenset)):
+                                consts = set(cv)
+                        if consts is not None and kwname in names_in(v):
+                            allowed = consts
+                        elif kwname in names_in(it) and not v.generators[0].ifs:
+                            allowed = None  # {k: v for k, v in params.items()}: everything
+                            break
+                    elif isinstance(v, ast.Dict) and all(isinstance(k_, ast.Constant) for k_ in v.keys if k_ is not None):
+                        allowed = {k_.value for k_ in v.keys if k_ is not None}
+                        if any(k_ is None for k_ in v.keys):
+                            allowed = None
+                if allowed is None:
+                    if isinstance(splat, ast.Name) and any(isinstance(v, ast.Call) and (call_name(v) or "") == "dict" and kwname in names_in(v) for v in vals):
+                        res.ok("R-C19e", site, key, "a copy of the whole parameter mapping is forwarded", fi.qualname)
+                    else:
+                        res.unresolved("R-C19e", site, key, f"`**{src(splat, 30)}`: not the rule's own **{kwname} and not a recognised filter", fi.qualname)
+                    continue
+                allowed |= {k.arg for k in b.keywords if k.arg}
+                # which plugin primitives is this rule registered for?
+                owner = fi.parent_func or fi
+                needed: Set[str] = set()
+                users = []
+                for mod2 in idx.product_modules():
+                    for c2 in ast.walk(mod2.tree):
+                        if isinstance(c2, ast.Call) and (call_name(c2) or "").split(".")[-1] == owner.name and c2.args:
+                            d = dotted(c2.args[0]) or ""
+                            cname = d.split(".")[0]
+                            cls = mod2.classes.get(cname)
+                            if cls is not None:
+                                ae = idx.resolve_method(cls, "abstract_eval")
+                                if ae is not None:
+                                    aa = ae.node.args  # type: ignore[attr-defined]
+                                    ks = {x.arg for x in aa.kwonlyargs} | {x.arg for x in aa.args[1:] if x.arg not in ("self", "cls")}
+                                    needed |= ks
+                                    users.append(cls.name)
+                missing = sorted(needed - allowed - explicit_params)
+                if missing:
+                    res.violation("R-C19e", site, key, f"the rule re-binds the primitive with only {sorted(allowed)} although {', '.join(users[:4])}… carry {missing} as well: under the transformation (jax.vmap) the argument is accepted and silently replaced by its default", fi.qualname)
+                elif users:
+                    res.ok("R-C19e", site, key, f"the filtered re-bind covers every parameter of {len(users)} primitives", fi.qualname)
+                else:
+                    res.unresolved("R-C19e", site, key, "filtered re-bind; the primitives using this rule were not resolved", fi.qualname)
+    res.analysed["rebind_sites_in_rules"] = n
